@@ -170,7 +170,9 @@ class FrameInterp(Interp):
                     else:
                         raise Undecided("get with range kind " + nm)
                     if hi is None:
-                        raise Undecided("get(n..) on the open input")
+                        # data.get(n..) on the open buffer: Some iff n <= LEN
+                        cond = self.compare("Ge", Sym(1), lo)
+                        return ("fork-option", cond, Ref(("slice", lo, None)))
                     # Some iff lo <= hi <= len
                     if self.compare("Le", lo, hi) != 1:
                         raise Undecided("get with a possibly inverted range")
@@ -540,4 +542,127 @@ def check(prog, field_names):
                         prob("num", "message_number is %s for L >= 2, expected Some(first 12 payload bits)" % (mn.fields[0] if isinstance(mn, Adt) and mn.fields else getattr(mn, "vname", mn),))
         finally:
             bitsem.QMIN, bitsem.QMAX = 0, 1 << 58
+    return out
+
+
+# ------------------------------------------------------------------ MsgFrameIter::next  (I-iter, C05 last sentence)
+ITER_NEXT = "<&mut MsgFrameIter as core::iter::Iterator>::next"
+
+
+class IterInterp(FrameInterp):
+    """self = &mut &mut MsgFrameIter{data, index}; data = the symbolic buffer, index = Q (unknown, 0..2^58)."""
+
+    def __init__(self, prog, f, i_data, i_index):
+        FrameInterp.__init__(self, prog, f)
+        self.i_data, self.i_index = i_data, i_index
+        self.scans = []
+
+    def call(self, st, t):
+        c = t.get("resolved") or t["callee"]
+        if c == "next_msg_frame":
+            args = [self.operand(st, a) for a in t["args"]]
+            a = args[0]
+            self.scans.append((st.seqno if hasattr(st, "seqno") else 0, a.loc if isinstance(a, Ref) else a))
+            st.scan_args = getattr(st, "scan_args", []) + [a.loc if isinstance(a, Ref) else a]
+            return Tup([Opaque("consumed", ()), Opaque("frame", ())])
+        if c in ("core::slice::index::<impl core::ops::Index<I> for [T]>::index",) and len(t["args"]) == 2:
+            args = [self.operand(st, a) for a in t["args"]]
+            base, rg = args
+            if isinstance(base, Ref) and base.loc[0] == "slice" and base.loc[2] is None and isinstance(rg, Adt) and (rg.path or "").endswith("RangeFrom"):
+                lo = add(base.loc[1], self.to_int(rg.fields[0]))
+                cnd = self.compare("Ge", Sym(1), lo)
+                if isinstance(cnd, UBool):
+                    cnd = self.decide(st, cnd)
+                if cnd is None:
+                    raise Undecided("data[%s..] is not covered by a length test on this path" % (lo,))
+                if not cnd:
+                    raise Panic("slice start %s beyond the end" % (lo,))
+                return Ref(("slice", lo, None))
+        if c in ("core::option::Option::<T>::unwrap_or_default", "core::option::Option::<T>::unwrap_or"):
+            args = [self.operand(st, a) for a in t["args"]]
+            o = args[0]
+            if isinstance(o, Adt) and o.vname == "Some":
+                return o.fields[0]
+            if isinstance(o, Adt) and o.vname == "None":
+                if c.endswith("unwrap_or") and len(args) > 1:
+                    return args[1]
+                return Ref(("slice", 0, 0))
+            raise Undecided("unwrap_or_default of an unknown option")
+        return FrameInterp.call(self, st, t)
+
+    def binop(self, st, op, x, y, tya, dest_ty):
+        base = op[:-12] if op.endswith("WithOverflow") else op
+        if base == "Add" and (isinstance(x, Opaque) or isinstance(y, Opaque)):
+            o, l = (x, y) if isinstance(x, Opaque) else (y, x)
+            if o.tag == "consumed" and lin_parts(l) == (1, 0):
+                r = Opaque("index+consumed", ())
+                # no overflow: consumed <= len(rest) (scanner contract, S-ok/S-inc/S-end) and len <= isize::MAX
+                return Tup([r, 0]) if op.endswith("WithOverflow") else r
+        return FrameInterp.binop(self, st, op, x, y, tya, dest_ty)
+
+    def slice_len(self, v):
+        if isinstance(v, Ref) and v.loc[0] == "slice" and v.loc[2] is None and lin_parts(v.loc[1]) != (0, 0):
+            raise Undecided("length of the unconsumed tail")
+        return FrameInterp.slice_len(self, v)
+
+
+def check_iter(prog):
+    """{'paths', 'problems': [text], 'undecided': [text]}"""
+    out = {"paths": 0, "problems": [], "undecided": []}
+    f = prog.fn(ITER_NEXT)
+    adt = prog.adts.get("MsgFrameIter")
+    if f is None or adt is None:
+        out["undecided"].append("MsgFrameIter::next not found")
+        return out
+    fields = [x["name"] for x in adt["variants"][0]["fields"]]
+    if sorted(fields) != ["data", "index"]:
+        out["undecided"].append("MsgFrameIter fields are %s" % fields)
+        return out
+    i_data, i_index = fields.index("data"), fields.index("index")
+    bitsem.QMIN, bitsem.QMAX = 0, 1 << 58
+    it = IterInterp(prog, f, i_data, i_index)
+    st = FrameState()
+    obj = [None, None]
+    obj[i_data] = Ref(("slice", 0, None))
+    obj[i_index] = Lin(1, 0)
+    st.self_fields = Tup(obj)
+    st.locals[-50] = Ref(("self", ()))
+    st.locals[1] = Ref(("local", -50, (), 0))
+    try:
+        it.run(st)
+    except Panic as e:
+        out["problems"].append("panic: %s (line %s)" % (e, it.line))
+        return out
+    except Undecided as e:
+        out["undecided"].append("%s (line %s)" % (e, it.line))
+        return out
+    for fin, ret in it.results:
+        out["paths"] += 1
+        scans = getattr(fin, "scan_args", [])
+        idx = fin.self_fields.fields[i_index]
+        # does the path know  LEN > index  /  LEN <= index ?
+        gt = fin.len_lb is not None and lin_range(mklin(lin_parts(fin.len_lb)[0] - 1, lin_parts(fin.len_lb)[1] - 1))[0] >= 0
+        le = fin.len_ub is not None and lin_range(mklin(lin_parts(fin.len_ub)[0] - 1, lin_parts(fin.len_ub)[1] - 1))[1] <= 0
+        if not scans:
+            if not le:
+                out["problems"].append("next() returns without scanning although index < data.len() is possible on that path")
+            if not (isinstance(ret, Adt) and ret.vname == "None"):
+                out["problems"].append("without a scan next() returns %s, expected None" % getattr(ret, "vname", ret))
+            if idx != Lin(1, 0):
+                out["problems"].append("index is changed without a scan")
+            continue
+        if len(scans) != 1:
+            out["problems"].append("the scanner is called %d times in one next()" % len(scans))
+            continue
+        if not gt:
+            out["problems"].append("the scanner is called although index >= data.len() is possible on that path")
+        a = scans[0]
+        if not (isinstance(a, tuple) and a[0] == "slice" and lin_parts(a[1]) == (1, 0) and a[2] is None):
+            out["problems"].append("the scanner is given %s, expected data[index..]" % (a,))
+        if not (isinstance(idx, Opaque) and idx.tag == "index+consumed"):
+            out["problems"].append("after the scan index is %s, expected index + consumed" % (idx,))
+        if not (isinstance(ret, Opaque) and ret.tag == "frame"):
+            out["problems"].append("after the scan next() returns %s, expected the scanner's frame unchanged" % (ret,))
+    if out["paths"] < 2:
+        out["problems"].append("fewer than two paths (scan / no scan)")
     return out
